@@ -1,0 +1,32 @@
+//go:build verif
+
+package iterable
+
+// VerifWalk walks the internal list from head following next (build tag verif
+// only; read-only).  It returns the number of nodes reachable from head, how
+// many of them are in the deleted state, the sum of their reference counters
+// and whether the list is structurally consistent: head.prev is nil, every
+// node is linked back by its successor, and the walk ends at im.last, which is
+// the sentinel (state rlLast).
+func (im *Map[K, V]) VerifWalk() (nodes, deleted, sumRef int, headOK bool) {
+	const limit = 1 << 26 // guards against a cyclic list
+	headOK = im.head != nil
+	var prev *rlItem[K, V]
+	p := im.head
+	for p != nil && nodes < limit {
+		nodes++
+		if p.state == rlDeleted {
+			deleted++
+		}
+		sumRef += p.refCnt
+		if p.prev != prev {
+			headOK = false
+		}
+		prev = p
+		p = p.next
+	}
+	if prev == nil || prev != im.last || prev.state != rlLast || p != nil {
+		headOK = false
+	}
+	return
+}
